@@ -4,14 +4,14 @@ CONSTANTS
   Limits = {3}
   MaxReq = 2
   MaxChg = 1
-  MaxStore = 1
+  MaxStore = 2
   KindSet = {"exact", "corrupt"}
   ROs = {FALSE, TRUE}
   ExtNames = {"a"}
   MaxFiles = {2, 1000000}
   FaultSet <- FaultsQuick
   Restarts = {"keep"}
-  WhatIf = "none"
+  WhatIf = "no_rescan"
 SPECIFICATION Spec
 INVARIANT NoViolation
 CHECK_DEADLOCK FALSE
